@@ -40,9 +40,10 @@ template<class T> static Q ulp_of(Q x){ x = fabsq(x); const int p = std::numeric
 struct Acc { double worst=0; long n=0; int zero=1, sym=1; unsigned classes=0; long double wx=0; int nonfinite=0; long seq_n=0, seq_diff=0; };
 template<class T> static bool biteq(T a, T b){ return std::memcmp(&a,&b, sizeof(T)>10? 10 : sizeof(T))==0 || (a!=a && b!=b); }
 // the sequence overloads (std::array, std::vector, PlanarVector, Vector, SymmetricDyad, Dyad) must return, component by component, what the scalar overload returns
-// ... within ONE ulp (the neighbouring representable number), which is what the library promises; in the unchanged library they are bit-identical, but an overload may legitimately
+// ... within two representable neighbours (each result is within one ulp of the exact value); in the unchanged library they are bit-identical, but an overload may legitimately
 // take a shortcut (same unit, standard unit on one side) that another does not
-template<class T> static bool within1(T a, T b){ if(biteq(a,b)) return true; if(a!=a || b!=b) return false; return a==b || a==std::nextafter(b, std::numeric_limits<T>::infinity()) || a==std::nextafter(b, -std::numeric_limits<T>::infinity()); }
+template<class T> static bool within1(T a, T b){ if(biteq(a,b)) return true; if(a!=a || b!=b) return false; if(a==b) return true; const T inf=std::numeric_limits<T>::infinity(); T up=std::nextafter(b,inf), dn=std::nextafter(b,-inf);
+  return a==up || a==dn || a==std::nextafter(up,inf) || a==std::nextafter(dn,-inf); }   // two neighbours: one overload may round twice (through the standard unit) where another takes an exact shortcut
 template<class T> static void seqcmp(Acc& acc, const T* got, const std::vector<T>& want, size_t at, size_t n){ for(size_t c=0;c<n;c++){ acc.seq_n++; if(!within1(got[c], want[(at+c)%%want.size()])) acc.seq_diff++; } }
 template<class T, size_t N> static std::array<T,N> take(const std::vector<T>& v, size_t at){ std::array<T,N> a{}; for(size_t c=0;c<N;c++) a[c]=v[(at+c)%%v.size()]; return a; }
 template<class U, class T> static void runtime_sequences(Acc& acc, const std::vector<T>& xs, const std::vector<T>& ys, U a, U b){
